@@ -193,7 +193,7 @@ pub fn lru_consistent(b: &[u8]) -> bool {
 
 fn lru_built(cap: u32, n: u32) -> Result<LruArt, ArtErr> {
     use cascette_client_storage::lru::LruManager;
-    let dir = tempfile::tempdir().map_err(|e| e.to_string())?;
+    let dir = crate::scratch_dir().map_err(|e| e.to_string())?;
     let mut m = LruManager::new(cap, dir.path().to_path_buf());
     for i in 0..n {
         let mut k = [0u8; 9];
@@ -358,7 +358,7 @@ pub fn ekey_from9(k: &[u8; 9]) -> EncodingKey {
 
 fn idx_built(n_sorted: u32, n_upd: u32) -> Result<IdxArt, String> {
     use cascette_client_storage::index::IndexManager;
-    let dir = tempfile::tempdir().map_err(|e| e.to_string())?;
+    let dir = crate::scratch_dir().map_err(|e| e.to_string())?;
     let mut m = IndexManager::new(dir.path());
     let bucket = IndexManager::bucket_for_key(&EncodingKey::from_bytes(k16(0)));
     // keys of one bucket
@@ -433,7 +433,7 @@ fn idx_built(n_sorted: u32, n_upd: u32) -> Result<IdxArt, String> {
         return Err(format!("idx holds {} sorted / {} update entries", art.sorted.len(), art.updates.len()));
     }
     // the intact file must be served exactly as the model says
-    let d2 = tempfile::tempdir().map_err(|e| e.to_string())?;
+    let d2 = crate::scratch_dir().map_err(|e| e.to_string())?;
     let p2 = d2.path().join(&art.fname);
     std::fs::write(&p2, &art.bytes).map_err(|e| e.to_string())?;
     let mut m2 = IndexManager::new(d2.path());
